@@ -66,6 +66,16 @@ def resolve_special(it, callee):
                 if not B(it, e): r = False; break
             return (not r) if neg else r
         return ('model', f)
+    m = re.fullmatch(r'<\((.*)\) as std::cmp::PartialOrd>::(lt|le|gt|ge)', callee)
+    if m and all(t.strip() in INT_RANGE for t in split_top(m.group(1), ',')):
+        meth = m.group(2)
+        def f(it, a, b, meth=meth):
+            x, y = deref_all(a), deref_all(b)
+            for p_, q_ in zip(x, y):
+                if B(it, p_ < q_): return meth in ('lt', 'le')
+                if B(it, p_ > q_): return meth in ('gt', 'ge')
+            return meth in ('le', 'ge')
+        return ('model', f)
     m = re.fullmatch(r'<std::boxed::Box<(.*)> as std::cmp::PartialEq>::eq', callee)
     if m:
         inner = m.group(1)
@@ -111,6 +121,10 @@ def resolve_special(it, callee):
     if m and re.search(r'(^|::)[A-Z][A-Z0-9_]*$', m.group(1)) and '<' not in m.group(1):
         name = m.group(1)
         return ('model', lambda it, r: it.lazy_static(name))
+    m = re.fullmatch(r'<([\w:]+(?:<.*>)?) as std::cmp::PartialEq(<.*>)?>::ne', callee)
+    if m and m.group(1).split('<')[0].split('::')[0] not in ('std', 'core', 'alloc'):
+        eqc = '<%s as std::cmp::PartialEq%s>::eq' % (m.group(1), m.group(2) or '')
+        return ('model', lambda it, a, b: znot(it.call(eqc, [a, b])))
     m = re.fullmatch(r'<(.*) as std::string::ToString>::to_string', callee)
     if m and m.group(1) not in ('str', '&str', 'std::string::String', 'char') and m.group(1) not in INT_RANGE and m.group(1).lstrip('&') not in INT_RANGE:
         ty = m.group(1)
@@ -389,6 +403,8 @@ reg(r'<(\w+) as std::convert::From<\1>>::from', lambda it, v: v)
 reg(r'<(.+) as std::convert::Into<\1>>::into', lambda it, v: v)
 reg(r'<std::borrow::Cow<.*> as std::ops::Deref>::deref', lambda it, c: (lambda v: v.fields[0] if isinstance(v.fields[0], Ref) else Ref(Box_(v.fields[0])))(deref_all(c)))
 reg(r"<std::borrow::Cow<'_, str> as std::convert::Into<std::string::String>>::into", lambda it, c: SStr(deref_all(c.fields[0]).chars))
+reg(r"<(std::string::String|&str|&std::string::String) as std::convert::Into<std::borrow::Cow<'_, str>>>::into", lambda it, s: Adt(1, [s]) if isinstance(s, SStr) else Adt(0, [s]))
+reg(r"<std::borrow::Cow<'_, str> as std::convert::From<(std::string::String|&str|&std::string::String)>>::from", lambda it, s: Adt(1, [s]) if isinstance(s, SStr) else Adt(0, [s]))
 reg(r"std::borrow::Cow::<'_, str>::into_owned", lambda it, c: SStr(deref_all(c.fields[0]).chars))
 
 # ---------------------------------------------------------------- strings and chars
@@ -997,6 +1013,11 @@ def m_successors(it, first, clo):
 reg(r'std::iter::once::<.*>', lambda it, v: PyIter([v]))
 reg(r'std::iter::empty::<.*>', lambda it: PyIter([]))
 reg(r'std::iter::repeat::<.*>', None)
+@model(r'std::ops::(RangeInclusive|Range)::<.*>::contains::<.*>', True)
+def m_range_contains(it, callee, r, x):
+    f = deref_all(r).fields; x = deref_all(x)
+    if 'RangeInclusive' in callee: return zand(f[0] <= x, x <= f[1])
+    return zand(f[0] <= x, x < f[1])
 reg(r'std::ops::RangeInclusive::<.*>::new', lambda it, a, b: Adt(0, [a, b, False], 'incl'))
 reg(r'<(std::vec::IntoIter|std::slice::Iter|std::slice::IterMut|std::str::Chars)<.*> as std::iter::ExactSizeIterator>::len', lambda it, c: len(it_of(c).items) - it_of(c).i)
 
